@@ -14,7 +14,8 @@ class ProducerFace:
     """Stands where the NFD face is: [send] receives encoded Interests, replies are injected through
     the app's receive callback in a later loop turn."""
 
-    def __init__(self, loop, answer, trace, nack_form=150):
+    def __init__(self, loop, answer, trace, nack_form=150, meta_of=None):
+        self.meta_of = meta_of           # Data name -> (ContentType, FreshnessPeriod or None) of its MetaInfo; None: the defaults
         self.nack_form = nack_form       # reason and encoding of the NetworkNack sent for a nacked Interest
         self.running = True
         self.callback = None
@@ -25,8 +26,15 @@ class ProducerFace:
         self.invalid_next = False
         self.sent_at = []
 
+    def meta(self, name, marker):
+        from ndn.encoding import MetaInfo
+        m = self.meta_of(name) if self.meta_of is not None else None
+        if m is None:
+            return MetaInfo(final_block_id=marker)
+        return MetaInfo(content_type=m[0], freshness_period=m[1], final_block_id=marker)
+
     def send(self, wire):
-        from ndn.encoding import parse_interest, make_data, MetaInfo, parse_tl_num
+        from ndn.encoding import parse_interest, make_data, parse_tl_num
         wire = bytes(wire)
         name, param, app_param, sig = parse_interest(wire, with_tl=True)
         q = (H.nb(name), bool(param.can_be_prefix), bool(param.must_be_fresh), param.lifetime)
@@ -39,11 +47,11 @@ class ProducerFace:
         self.trace.append(['ask', q, r, n])
         self.sent_at.append(self.loop.time())
         if r[0] == 'data':
-            pkt = bytes(make_data(r[1], MetaInfo(final_block_id=r[3]), r[2], signer=None))
+            pkt = bytes(make_data(r[1], self.meta(r[1], r[3]), r[2], signer=None))
             self.invalid_next = False
         elif r[1] == (2,):
             i = r[2]
-            pkt = bytes(make_data(i[0], MetaInfo(final_block_id=i[2]), i[1], signer=None))
+            pkt = bytes(make_data(i[0], self.meta(i[0], i[2]), i[1], signer=None))
             self.invalid_next = True
         elif r[1] == (1,):
             pkt = P.nack_wire(wire, self.nack_form)
@@ -56,8 +64,9 @@ class ProducerFace:
         self.running = False
 
 
-def run_real(answer, prefix, kw, nack_form=150, vlat=None):
-    """vlat: None (the validator answers at once) or a function (name components, negative verdict?) -> seconds the
+def run_real(answer, prefix, kw, nack_form=150, vlat=None, meta_of=None):
+    """meta_of: None or a function Data name -> (ContentType, FreshnessPeriod or None) for the MetaInfo of the answers.
+    vlat: None (the validator answers at once) or a function (name components, negative verdict?) -> seconds the
     caller's validator takes before it gives its verdict (virtual time), e.g. a validator that fetches a certificate."""
     from ndn.app import NDNApp
     from ndn.app_support.segment_fetcher import segment_fetcher
@@ -66,7 +75,7 @@ def run_real(answer, prefix, kw, nack_form=150, vlat=None):
     logging.getLogger('ndn').setLevel(logging.CRITICAL)
     loop = vtloop.new_loop()
     trace = []
-    face = ProducerFace(loop, answer, trace, nack_form)
+    face = ProducerFace(loop, answer, trace, nack_form, meta_of)
     face.nack_reason_got = None
     face.vlog = []                   # (name, negative verdict?) per invocation of the caller's validator
     app = NDNApp(face=face, keychain=object())
@@ -125,7 +134,11 @@ def stream_c(ctx):
             # the caller's validator takes its time (relative to the lifetime of the fetch's Interests)
             vspec = (rng.choice(['all', 'all', 'negative', 'positive', 'discovery', ('seg', rng.randrange(N))]),
                      rng.choice(validator_latencies(lifetime)))
-        one_case(ctx, s, N, retry, lifetime, rng.choice([True, False]), rng.choice(P.NACK_POOL), 'C.realapp', vspec=vspec)
+        meta = None
+        if rng.random() < 0.5:
+            # every Data of the object draws the rest of its MetaInfo (the library's encoder writes it)
+            meta = {k: draw_meta(rng) for k in [None] + list(range(N))}
+        one_case(ctx, s, N, retry, lifetime, rng.choice([True, False]), rng.choice(P.NACK_POOL), 'C.realapp', vspec=vspec, meta=meta)
     # Nack table: every reason value / encoding x the key that is nacked (discovery, first, middle, last segment)
     # x the number of losses before the Nack (0, one below the limit): the fetch ends with InterestNack(that reason)
     # after the contents of the earlier segments, and the nacked Interest is not re-expressed
@@ -142,6 +155,7 @@ def stream_c(ctx):
 
 
     validator_table(ctx)
+    metainfo_table(ctx)
     # unsegmented table: an unsegmented object published under EXACTLY the fetched name (the answer to the CanBePrefix
     # discovery Interest has the same name), one component below it, deeper; x shape of the fetched name x discovery
     # losses (0, retry-1: delivered; retry: timeout) x retry_times; through the real pending-Interest table
@@ -152,6 +166,37 @@ def stream_c(ctx):
                     s = H.mk_scenario(rng, rng.choice([0, 2]), None, 'exact', H.fates_from({None: lost}), prefix_mode=0,
                                       whole_rel=rel, base=base)
                     one_case(ctx, s, s['nseg'], retry, 100, rng.choice([True, False]), 150, 'C.unsegmented-' + rel)
+
+
+META_CT = [0, 0, 1, 2, 3, 4, 5, 9, 9999, 1 << 32]
+META_FP = [None, 0, 0, 1, 1000, 3600000, (1 << 64) - 1]
+
+
+def draw_meta(rng):
+    return (rng.choice(META_CT), rng.choice(META_FP))
+
+
+def metainfo_table(ctx):
+    """Nack / validation failure / plain delivery when every Data of the object carries the same unusual MetaInfo:
+    FreshnessPeriod {absent, 0, 1, large} x ContentType {BLOB, NACK(3), KEY} x must_be_fresh x what happens to a later
+    segment (delivered / nacked / refused by the validator, after retry-1 losses) x validator quick / slow.  The contents
+    of the earlier segments are yielded, then the fetch completes / ends with that error - whatever the MetaInfo says."""
+    rng = ctx.rng
+    for fp in (None, 0, 1, 3600000):
+        for ct in (0, 3, 2):
+            for mbf in (True, False):
+                for fault in (None, H.NACKED, H.INVALID):
+                    N = 3
+                    retry = rng.choice([1, 3])
+                    key = rng.choice([1, 2])
+                    losses = {k: 0 for k in [None] + list(range(N))}
+                    losses[key] = retry - 1
+                    s = H.mk_scenario(rng, N, rng.choice([k for k in range(N) if k != key]), rng.choice(['exact', 'all']),
+                                      H.fates_from(losses, {key: fault} if fault is not None else None), prefix_mode=rng.choice([0, 1]))
+                    lifetime = rng.choice([100, 1000])
+                    vspec = ('all', lifetime // 2) if rng.random() < 0.3 else None
+                    one_case(ctx, s, N, retry, lifetime, mbf, rng.choice(P.NACK_POOL), 'C.metainfo-table', vspec=vspec,
+                             meta={k: (ct, fp) for k in range(N)})
 
 
 def make_vlat(s, vspec):
@@ -234,7 +279,9 @@ def validator_table(ctx):
                 one_case(ctx, s, 0, rng.choice([1, 3]), lifetime, True, 150, 'C.validator-latency-unsegmented', vspec=('all', lat))
 
 
-def one_case(ctx, s, N, retry, lifetime, mbf, nack_form, stratum, vspec=None):
+def one_case(ctx, s, N, retry, lifetime, mbf, nack_form, stratum, vspec=None, meta=None):
+        """meta: None or {key: (ContentType, FreshnessPeriod or None)} (key = segment number, None = the unsegmented object):
+        the MetaInfo the producer puts on that Data besides the FinalBlockId; the specification does not look at it."""
         M = ctx.call
         att = max(1, retry)
         if not s['prefix']:
@@ -254,7 +301,13 @@ def one_case(ctx, s, N, retry, lifetime, mbf, nack_form, stratum, vspec=None):
                 return ('exc', (2,), d)
             return r
         kw = {'retry_times': retry, 'timeout': lifetime, 'must_be_fresh': mbf}
-        trace, ending, elapsed, errors, pending, face = run_real(answer, s['prefix'], kw, nack_form, make_vlat(s, vspec))
+        meta_of = None
+        if meta is not None:
+            by_name = {tuple(s['base'] + [H.seg(i)]): meta.get(i) for i in range(s['nseg'])}
+            if s['disc'][0] == 'whole':
+                by_name[tuple(s['disc'][1])] = meta.get(None)
+            meta_of = lambda name: by_name.get(tuple(H.nb(name)))      # noqa
+        trace, ending, elapsed, errors, pending, face = run_real(answer, s['prefix'], kw, nack_form, make_vlat(s, vspec), meta_of)
         for t in trace:
             if t[0] == 'ask' and len(t[2]) == 3:
                 t[2] = t[2][:2]
@@ -262,6 +315,10 @@ def one_case(ctx, s, N, retry, lifetime, mbf, nack_form, stratum, vspec=None):
                 'nack': nack_form}
         if vspec is not None:
             case['validator'] = {'slow_on': vspec[0], 'latency_ms': vspec[1]}
+        if meta is not None:
+            case['MetaInfo (ContentType, FreshnessPeriod)'] = {('object' if k is None else f'segment {k}'): list(v) for k, v in meta.items()}
+            for v in meta.values():
+                ctx.stat('C.freshness:' + ('absent' if v[1] is None else '0' if v[1] == 0 else 'positive') + (':must_be_fresh' if mbf else ':may_be_stale'))
         es = H.enc_scn(s)
         m = M([2, [retry, lifetime, int(mbf)], H.FUEL, es])
         mev, mend = H.norm(m[0]), H.dec_ending(m[1])
